@@ -70,6 +70,7 @@ func main() {
 	add := func(c Case) {
 		id++
 		c.ID = id
+		c.Now = runNow
 		cases = append(cases, c)
 	}
 	specs := routeSpecs()
@@ -108,7 +109,7 @@ func main() {
 		for _, q := range reps {
 			for _, pp := range product(s, thorough) {
 				id++
-				g2 = append(g2, Case{ID: id, Group: "G2", Route: s.Key, Query: q, Params: pp, Fault: Fault{Shape: "1batch"}})
+				g2 = append(g2, Case{ID: id, Now: runNow, Group: "G2", Route: s.Key, Query: q, Params: pp, Fault: Fault{Shape: "1batch"}})
 			}
 		}
 	}
@@ -179,7 +180,7 @@ func main() {
 				for _, row := range k.rows {
 					id++
 					f := Fault{Shape: b.Fault.Shape, Kind: k.kind, Nth: nth, Row: row}
-					faults = append(faults, Case{ID: id, Group: "G3", Route: b.Route, Query: b.Query, Params: b.Params, Fault: f, Cancel: k.cancel})
+					faults = append(faults, Case{ID: id, Now: runNow, Group: "G3", Route: b.Route, Query: b.Query, Params: b.Params, Fault: f, Cancel: k.cancel})
 				}
 			}
 		}
@@ -625,7 +626,15 @@ func (p *pool) confirmAll(cases []Case, results map[int]*Result) {
 		go func(j job) {
 			defer wg.Done()
 			defer func() { <-sem }()
-			pairVerdict[j.idx] = p.confirmPair(*j.s.prev, j.s.c, j.s.class)
+			if p.confirmPair(*j.s.prev, j.s.c, j.s.class) {
+				// the pair fails every time; make sure the request alone still does not (otherwise it is an
+				// ordinary, merely less frequent, failure of the request itself)
+				if p.confirm(j.s.c, j.s.class) == "reproduced" {
+					verdict[j.idx] = "reproduced"
+				} else {
+					pairVerdict[j.idx] = true
+				}
+			}
 		}(j)
 	}
 	wg.Wait()
